@@ -141,3 +141,35 @@ pub fn coq_frac(n: i64, d: u64) -> String {
 pub fn arg_val(args: &[String], name: &str, default: u64) -> u64 {
     args.iter().position(|a| a == name).and_then(|i| args.get(i + 1)).and_then(|v| v.parse().ok()).unwrap_or(default)
 }
+
+/// The fontc working tree this harness was built against: `VERIF_REPO`, or the directory of the `fontc` path
+/// dependency in this crate's Cargo.toml (/repo; a scratch worktree when tools/seedtest.sh rewrote it).
+pub fn repo_root() -> std::path::PathBuf {
+    if let Ok(r) = std::env::var("VERIF_REPO") {
+        return r.into();
+    }
+    let manifest = concat!(env!("CARGO_MANIFEST_DIR"), "/Cargo.toml");
+    if let Ok(text) = std::fs::read_to_string(manifest) {
+        for line in text.lines() {
+            if line.trim_start().starts_with("fontc = ") {
+                let parts: Vec<&str> = line.split('"').collect();
+                if parts.len() >= 2 {
+                    if let Some(p) = std::path::Path::new(parts[1]).parent() {
+                        return p.to_path_buf();
+                    }
+                }
+            }
+        }
+    }
+    "/repo".into()
+}
+
+/// Where CLI binaries of `repo_root()` are built: the shared target directory for /repo itself, a directory under
+/// `VERIF_WORK` for a scratch worktree.
+pub fn repo_target(repo: &std::path::Path) -> std::path::PathBuf {
+    if repo == std::path::Path::new("/repo") {
+        "/verif/work/repo-target".into()
+    } else {
+        std::path::PathBuf::from(std::env::var("VERIF_WORK").unwrap_or_else(|_| "/tmp/vh-seed-work".into())).join("repo-target")
+    }
+}
